@@ -501,11 +501,11 @@ class Aspire:
                     saved_config = True
                     if defaults is not None:
                         defaults["saved_config"] = True
-                if (
-                    self.flow is not None
-                    and not saved_flow
-                    and "flow" not in h5_file
-                ):
+                if self.flow is not None and not saved_flow:
+                    # The particles are weighted under the current flow:
+                    # replace a flow left in the file by an earlier fit
+                    if "flow" in h5_file:
+                        del h5_file["flow"]
                     self.save_flow(h5_file)
                     saved_flow = True
                     if defaults is not None:
@@ -534,11 +534,9 @@ class Aspire:
                     )
                     if defaults is not None:
                         defaults["saved_config"] = True
-                if (
-                    self.flow is not None
-                    and not saved_flow
-                    and "flow" not in h5_file
-                ):
+                if self.flow is not None and not saved_flow:
+                    if "flow" in h5_file:
+                        del h5_file["flow"]
                     self.save_flow(h5_file)
                     if defaults is not None:
                         defaults["saved_flow"] = True
